@@ -1459,6 +1459,13 @@ def diff(v1, v2, what="compare"):
             diffs.append(("only_impl", show_coef(c), show_net(n, v1)))
     for c2, n2 in rest:
         diffs.append(("only_spec", show_coef(c2), show_net(n2, v1)))
+    if diffs and len(diffs) <= 40:
+        # the two sides may differ in form only across terms (e.g.  x  vs  Inv(X) X x ): normalise the difference as a whole
+        try:
+            if not normalize(add(v1, v2, -1)):
+                return []
+        except (ShapeError, LayoutError):
+            pass
     return diffs
 
 
